@@ -117,16 +117,17 @@ func genOps(t *rapid.T, pool []vgen.Blob, caps vcompose.Caps, n int) []op {
 }
 
 type caseDef struct {
-	MaxZip  int // forced maximum zip size for blobpacked nodes (0 = default) when the history uploads a packable file
-	HasFile bool
-	Bulk    int     // encrypt root: number of tiny blobs received first, so that the history crosses the meta roll-up threshold
-	ErrKind int     // shape of the injected error (vstore.ErrPlain, a deadline, a cancellation, an i/o timeout)
-	Preload [][]int // per preload leaf (overlay lower / union subsets): pool indexes stored there before the history
-	Tree    *vcompose.Node
-	Pool    []vgen.Blob
-	Ops     []op
-	Heal    []op
-	Desc    string
+	MaxZip        int // forced maximum zip size for blobpacked nodes (0 = default) when the history uploads a packable file
+	HasFile       bool
+	FaultyRestart bool    // encrypt root: the recovery is first attempted with a failing listing of the meta store
+	Bulk          int     // encrypt root: number of tiny blobs received first, so that the history crosses the meta roll-up threshold
+	ErrKind       int     // shape of the injected error (vstore.ErrPlain, a deadline, a cancellation, an i/o timeout)
+	Preload       [][]int // per preload leaf (overlay lower / union subsets): pool indexes stored there before the history
+	Tree          *vcompose.Node
+	Pool          []vgen.Blob
+	Ops           []op
+	Heal          []op
+	Desc          string
 }
 
 // A fault is addressed by (layer, op, key, n-th occurrence of that triple): unlike a global call
@@ -243,6 +244,7 @@ func run(cd *caseDef, faults []fault, recoverAfter bool) (res result) {
 	defer os.RemoveAll(dir)
 	env := vstore.NewEnv()
 	env.ErrKind = cd.ErrKind
+	env.SlowErrorReturn = 200 * time.Microsecond // the harness owns this bit of the schedule, see vstore
 	b, err := vcompose.Build(env, dir, cd.Tree)
 	if err != nil {
 		res.inconcl = fmt.Sprintf("harness: cannot build %s: %v", cd.Tree, err)
@@ -542,6 +544,33 @@ func run(cd *caseDef, faults []fault, recoverAfter bool) (res result) {
 	case "encrypt":
 		b.Close()
 		env.NewKV(root.KVName("encmeta")).WipeRaw()
+		if cd.FaultyRestart {
+			// first a start-up during which the listing of the meta store fails once: the store has to refuse
+			// to start (and start at the next attempt), or start with everything it is responsible for - a
+			// start-up that "succeeds" over an empty mapping serves none of the acknowledged blobs
+			n := 0
+			env.Match = func(e *vstore.Event) vstore.Behaviour {
+				if e.Op == "enumerate" && strings.HasPrefix(e.Layer, "store:") {
+					if n++; n == 1 {
+						return vstore.Fail
+					}
+				}
+				return vstore.OK
+			}
+			ferr := b.Reopen()
+			env.Match = nil
+			trace = append(trace, fmt.Sprintf("start-up over a wiped index with a failing listing of a wrapped store -> %v (faults delivered: %d)", ferr, n))
+			if ferr == nil {
+				for r := range everMaybe {
+					model.SetMaybe(r, nil)
+				}
+				if !doOp(2900, op{Kind: "battery"}, true) {
+					return
+				}
+			}
+			b.Close()
+			env.NewKV(root.KVName("encmeta")).WipeRaw()
+		}
 		rerr = b.Reopen()
 	case "blobpacked":
 		b.Close()
@@ -672,6 +701,9 @@ func genCase(t *rapid.T) *caseDef {
 	// an encrypt root sometimes first receives a hundred tiny blobs: the receive that crosses
 	// encrypt.SmallMetaCountLimit starts the background roll-up of the small meta blobs (index reads, one
 	// packed meta upload, a hundred meta removals), and the faults land in there as well
+	if tree.Type == "encrypt" {
+		cd.FaultyRestart = rapid.Bool().Draw(t, "faultyRestart")
+	}
 	if tree.Type == "encrypt" && caps.Receive && rapid.IntRange(0, 3).Draw(t, "bulk") == 0 {
 		cd.Bulk = rapid.IntRange(encrypt.SmallMetaCountLimit-3, encrypt.SmallMetaCountLimit+8).Draw(t, "bulkN")
 		seed := rapid.Uint64Range(1, 1<<20).Draw(t, "bulkSeed")
